@@ -361,7 +361,7 @@ def check_predicates(ctx, case, table, out, metric_ok, sep_ok):
         if cs[:len(pre)] != pre:
             bad('supplied initial centers not kept, in order, at the front of result.centers')
             return False
-        if sep_ok and len(set(init)) == len(init) and all(c < n for c in init) and ci[:m0] != init:
+        if sep_ok and init and len(set(init)) == len(init) and all(c < n for c in init) and ci[:m0] != init:
             bad('supplied initial centers (data frames) not kept at the front of center_indices')
             return False
     if cs[len(pre):] != new:
@@ -528,7 +528,17 @@ def process(ctx, case, model=None):
             return
 
 
+def quiet():
+    import logging
+    logging.getLogger('enspara').setLevel(logging.ERROR)
+    # the compiled kernels use OpenMP; with many idle threads a 6-row call costs 0.3 s of spin-waiting
+    from enspara.geometry import libdist  # noqa  (loads libgomp)
+    from threadpoolctl import threadpool_limits
+    threadpool_limits(limits=1, user_api='openmp')
+
+
 def run(ctx):
+    quiet()
     rng = ctx.rng
     cases = [gen_case(rng) for _ in range(ctx.n(700, 9000))]
     cases += [gen_case(rng, big=True) for _ in range(ctx.n(40, 600))]
@@ -585,6 +595,7 @@ def norm_scope(ctx):
 
 
 def replay(ctx, data):
+    quiet()
     case = {k: data[k] for k in data if k in ('kind', 'n', 'table', 'points', 'dtype', 'metric', 'n_clusters',
                                               'cutoff', 'init', 'tri', 'random_first', 'via')}
     process(ctx, case)
